@@ -32,6 +32,8 @@ def gen_metrics(rnd, n_einsums=None, force=None):
         return gen_part_metrics(rnd)
     if force == "reread-m":
         return gen_reread_metrics(rnd)
+    if force == "alias-arch":
+        return gen_alias_arch(rnd)
     if force is None:
         if n_einsums in (None, 1) and rnd.random() < 0.12:
             return gen_merger(rnd)
@@ -730,4 +732,95 @@ def gen_reread_metrics(rnd):
                 extra="\n".join(arch + b + fmt) + "\n", tags=sorted(set(tags)))
     # extents larger than the tile sizes, so that two tilings really differ
     spec._extents = {"K": rnd.randint(7, 13), "M": rnd.randint(3, 8)}
+    return spec
+
+
+def gen_alias_arch(rnd):
+    """Two configurations that SHARE a level through a YAML anchor/alias (a common way to
+    write "the same PE array under two memory systems"): the aliased level, its instance range
+    and its components must mean the same in both.  2-3 chained Einsums, each bound to one of
+    the configurations; the shared level holds the compute units (and sometimes a buffer)."""
+    n = rnd.choice([2, 2, 3])
+    ranks = rnd.sample(["M", "N", "K"], rnd.randint(1, 2))
+    decl, exprs, prev = {}, [], None
+    outs = ["T", "U", "Z"][:n - 1] + ["Z"]
+    fresh = iter("ABCDEFGH")
+    for i in range(n):
+        out = outs[i] if i < n - 1 else "Z"
+        a = next(fresh)
+        decl[a] = list(ranks)
+        fs = [_acc(a, ranks)]
+        if prev:
+            fs.append(_acc(prev, decl[prev]))
+        else:
+            b2 = next(fresh)
+            decl[b2] = list(ranks)
+            fs.append(_acc(b2, ranks))
+        rnd.shuffle(fs)
+        decl[out] = list(ranks)
+        exprs.append(Einsum(_acc(out, ranks), [Term("times", fs)]))
+        prev = out
+    npe = rnd.choice([2, 4, 8])
+    nchip = rnd.choice([1, 2])
+    deep = rnd.random() < 0.4        # the aliased level sits under a Chip level in config B
+    buf = rnd.random() < 0.5
+    pe = ["    - &pe", "      name: PE[0..%d]" % (npe - 1), "      local:",
+          "      - name: Mul", "        class: compute", "        attributes:",
+          "          type: mul",
+          "      - name: Add", "        class: compute", "        attributes:",
+          "          type: add"]
+    if buf:
+        pe += ["      - name: Buf", "        class: Buffet", "        attributes:",
+               "          width: 64", "          depth: 128"]
+    fa, fb = rnd.choice([1000, 2000]), rnd.choice([1000, 500])
+    arch = ["architecture:", "  cfgA:", "  - name: System", "    attributes:",
+            "      clock_frequency: %d" % fa, "    local:", "    - name: MemA", "      class: DRAM",
+            "      attributes:", "        bandwidth: 512", "    subtree:"] + pe
+    arch += ["  cfgB:", "  - name: System", "    attributes:", "      clock_frequency: %d" % fb,
+             "    local:", "    - name: MemB", "      class: DRAM", "      attributes:",
+             "        bandwidth: 256", "    subtree:"]
+    if deep:
+        arch += ["    - name: %s" % _level_name("Chip", nchip), "      subtree:", "      - *pe"]
+    else:
+        arch += ["    - *pe"]
+    b = ["bindings:"]
+    cfgs = [rnd.choice(["cfgA", "cfgB"]) for _ in range(n)]
+    if len(set(cfgs)) == 1:
+        cfgs[-1] = "cfgB" if cfgs[0] == "cfgA" else "cfgA"
+    fmt = ["format:"]
+    for t, rs in decl.items():
+        fmt += ["  %s:" % t, "    default:", "      rank-order: [%s]" % ", ".join(rs)]
+        for r in rs:
+            fmt += ["      %s:" % r, "        format: C", "        cbits: 32", "        pbits: 32"]
+    st, lo = {}, {}
+    for i, e in enumerate(exprs):
+        out = e.out.name
+        mem = "MemA" if cfgs[i] == "cfgA" else "MemB"
+        b += ["  %s:" % out, "  - config: %s" % cfgs[i], "    prefix: tmp/%s%d" % (out, i)]
+        tens = [a.name for a in e.inputs()] + [out]
+        mb = []
+        for t in tens:
+            if rnd.random() < 0.7:
+                for r in decl[t]:
+                    mb += ["    - tensor: %s" % t, "      rank: %s" % r, "      type: payload",
+                           "      format: default"]
+        if mb:
+            b += ["  - component: %s" % mem, "    bindings:"] + mb
+            if buf and rnd.random() < 0.7:
+                bb = []
+                for l in mb:
+                    bb.append(l)
+                    if l.strip().startswith("format:"):
+                        bb.append("      evict-on: root")
+                b += ["  - component: Buf", "    bindings:"] + bb
+        b += ["  - component: Mul", "    bindings:", "    - op: mul"]
+        if rnd.random() < 0.4:
+            b += ["  - component: Add", "    bindings:", "    - op: add"]
+        k = rnd.randint(0, len(ranks))
+        lo[out] = list(ranks)
+        st[out] = {"space": list(ranks[k:]) if rnd.random() < 0.5 else [], "time": []}
+        st[out]["time"] = [r for r in ranks if r not in st[out]["space"]]
+    spec = Spec(decl, exprs, loop_order=lo, spacetime=st,
+                extra="\n".join(arch + b + fmt) + "\n",
+                tags=["metrics", "m-aliased-level", "m-einsums%d" % n, "m-configs2"])
     return spec
